@@ -1,3 +1,4 @@
+import Check.C01
 import Check.C17
 import Check.C06
 import Check.C07
@@ -30,6 +31,7 @@ def sysChecker (tags : List String) : Checker :=
 
 def checker (prop : String) : Option Checker :=
   match prop with
+  | "C01" => some (stateless C01.check)
   | "C17" => some (stateless C17.check)
   | "C06" => some (stateless C06.check)
   | "C07" => some (stateless C07.check)
